@@ -73,7 +73,7 @@ pub fn plan(p: &EpParams) -> Plan {
         episodes: n_enum(len) + n_random(p),
         exhaustive: true,
         rule: format!(
-            "all operation sequences of length 1..{} over {:?} applied to one subscription of a two-subscription topic (exhaustive: {} sequences), each followed by three deadline crossings with full pulls on both subscriptions; plus {} random SEQ histories of 40-80 steps over the same alphabet extended with the sibling subscription, streaming acks and larger batches. Non-trivial: >=1 certainly-effective ack followed by a later deadline crossing, or a stale/unknown/repeated ack. Distinct: the abstract operation sequence.",
+            "all operation sequences of length 1..{} over {:?} applied to one subscription of a two-subscription topic (exhaustive: {} sequences), each followed by three deadline crossings with full pulls on both subscriptions; plus {} random SEQ histories of 40-80 steps over the same alphabet extended with the sibling subscription, streaming acks and larger batches (every 50th: one Acknowledge naming 1001-2600 deliveries). Non-trivial: >=1 certainly-effective ack followed by a later deadline crossing, or a stale/unknown/repeated ack. Distinct: the abstract operation sequence.",
             len, LETTERS, n_enum(len), n_random(p)
         ),
     }
@@ -380,6 +380,31 @@ async fn episode(p: &EpParams) -> EpReport {
         for l in &letters {
             apply(&mut seq, &mut c, l, &s1).await;
         }
+    } else if (idx - n_enum(len)) % 50 == 49 {
+        // one Acknowledge naming 1001-2600 deliveries at once (more than any page or batch size inside
+        // the server): every one of them is acknowledged, nothing comes back
+        let n = *rng.pick(&[1001usize, 1500, 2047, 2600]);
+        let s1 = c.s1.clone();
+        let mut left = n;
+        while left > 0 {
+            let k = left.min(1000);
+            seq.publish(&c.t.clone(), k).await;
+            left -= k;
+        }
+        let mut ids: Vec<String> = Vec::new();
+        for _ in 0..4 {
+            let ds = seq.pull(&s1, 1000, true).await;
+            if ds.is_empty() {
+                break;
+            }
+            ids.extend(ds.iter().map(|d| d.ack_id.clone()));
+        }
+        let now = seq.now();
+        let certain = seq.m.subs[&s1].leases.values().filter(|l| now < l.lo).count() as u64;
+        seq.ack(&s1, &ids).await;
+        c.effective_acks += certain;
+        rep.add("acks_naming_more_than_1000_deliveries", 1);
+        letters = vec![format!("mass_ack{}", n)];
     } else {
         let n = rng.range(40, 80);
         let ext = [
